@@ -25,7 +25,9 @@ RULE = ('history = seeded tree + prior Manifest state (0..4 mutations from file-
         'Manifest-side and unregistered-Manifest classes, or no Manifests at all) + '
         'options (hash set, sort, force, compress watermark/format, scope = whole tree '
         'or a sub-directory, library or CLI) + 1..3 rounds of (0..3 edits; update; '
-        'save) each starting from gemato\'s own previous output. Non-trivial = the '
+        'save) each starting from gemato\'s own previous output; big = trees with <= 40 '
+        'dirs / 150 files; cli-hist = CLI histories mixing `update SUBDIR` and `update '
+        '--incremental` with explicit mtimes relative to the TIMESTAMP. Non-trivial = the '
         'update completed and something had to change; distinct = hash of the '
         'materialised history.')
 ANCHORS = ['recursiveloader:ManifestRecursiveLoader.update_entries_for_directory',
